@@ -178,7 +178,7 @@ func runC12(w *World, r *Report) {
 	// ---- strings: only valid UTF-8 is representable (JSON encoding replaces invalid bytes by U+FFFD without an error),
 	// so every JSON encoding of a basic value or of a map key is preceded by a validity check that fails loudly; and the
 	// nil exit of the pointer-peeling loop records the FULL pointer depth of the type (a nil **T must come back as **T)
-	r.Rule("C12.representable-or-error", "internalMarshal: each json encoding of a basic value / map key is dominated by a UTF-8 validity check whose failure returns an error; on the nil-pointer exit every remaining pointer level is counted into PointerNum", 3)
+	r.Rule("C12.representable-or-error", "internalMarshal: each json encoding of a basic value / map key is dominated by a UTF-8 validity check whose failure returns an error; on the nil-pointer exit every remaining pointer level is counted into PointerNum and the level of the nil is recorded", 4)
 	{
 		im := w.Fn("internal/serialization", "internalMarshal")
 		reachesValid := func(f *ssa.Function) bool {
@@ -262,10 +262,28 @@ func runC12(w *World, r *Report) {
 				}
 			}
 		}
+		// … and WHERE the nil sits: some field of the wire struct other than PointerNum is given a value computed from the
+		// level count on the nil arm (the decoder allocates the non-nil levels above the nil from it)
+		levelRecorded := false
+		for _, fw := range fieldWrites(im) {
+			if sameField(fw.field, fPN) || fw.kind != "store" {
+				continue
+			}
+			underNil := hasGuard(fw.in.Block(), func(g guard) bool {
+				c, ok := g.cond.(*ssa.Call)
+				return ok && g.pol && calleeFullName(c) == "(reflect.Value).IsNil"
+			})
+			fs := map[*types.Var]bool{}
+			fieldsReadBy(fw.val, 0, fs)
+			if underNil && fs[fPN.Origin()] {
+				levelRecorded = true
+			}
+		}
+		r.Check(levelRecorded, "C12.representable-or-error", "internalMarshal: the nil exit records at which pointer level the nil sits", im.Pos(), "a wire-struct field is set from the level count on the nil arm", "the wire form only says 'null at depth n': a non-nil **T pointing to a nil *T is read back as a nil **T — the nil moves to the outermost level, silently, in every holder kind")
 		r.Check(sawNil && okNil, "C12.representable-or-error", "internalMarshal: the nil exit records the full pointer depth", im.Pos(), "the loop stripping the remaining pointer levels increments PointerNum", "a nil pointer of depth > 1 (a nil **T, or a nil **T field / slice element / map value) is recorded with the depth at which the nil was met: Marshal succeeds, Unmarshal rejects the bytes ('decoded value of type *T is not assignable to **T') and the checkpoint is lost at resume; in an `any` holder the value silently comes back as (*T)(nil)")
 	}
 
-	r.Rule("C12.codec-agree", "internalStruct fields written by internalMarshal == fields read by internalUnmarshal", 10)
+	r.Rule("C12.codec-agree", "internalStruct fields written by internalMarshal == fields read by internalUnmarshal; every pointer count is used to rebuild the type", 14)
 	written := map[string]bool{}
 	for _, fw := range fieldWrites(im) {
 		if fw.owner == isT {
@@ -286,6 +304,24 @@ func runC12(w *World, r *Report) {
 		n := st.Field(i).Name()
 		r.Check(written[n] == read[n] && written[n], "C12.codec-agree", "internalStruct."+n, st.Field(i).Pos(), "written by the encoder and read by the decoder",
 			fmt.Sprintf("field %s: written=%v read=%v — the decoder ignores information the encoder records (or expects information that is never written): values come back different", n, written[n], read[n]))
+	}
+
+	// the pointer counts are not merely read: each one is what the decoder hands to resolvePointerNum to rebuild the type
+	// (PointerNum in the basic-value arm and in the struct arm; the key / value / element counts in the container arms)
+	{
+		rpn := w.Fn("internal/serialization", "resolvePointerNum")
+		uses := map[string]int{}
+		for _, c := range callsTo(iu, rpn) {
+			if f, _ := loadedField(c.Common().Args[0]); f != nil {
+				uses[f.Name()]++
+			}
+		}
+		for _, want := range []struct {
+			field string
+			n     int
+		}{{"PointerNum", 2}, {"MapKeyPointerNum", 1}, {"MapValuePointerNum", 1}, {"SliceValuePointerNum", 1}} {
+			r.Check(uses[want.field] >= want.n, "C12.codec-agree", "internalUnmarshal rebuilds the type from "+want.field, iu.Pos(), fmt.Sprintf("%d resolvePointerNum call(s) on the field", uses[want.field]), fmt.Sprintf("the decoder hands %s to resolvePointerNum in %d place(s), %d expected: a pointer count the encoder records is not used to rebuild the type — values come back with fewer pointer levels (an *int as an int), which their holders then reject or silently accept in an interface", want.field, uses[want.field], want.n))
+		}
 	}
 
 	// ---- kind-siblings
@@ -959,7 +995,14 @@ func pointerDepthCheck(w *World, r *Report, rule string) {
 		if sameField(fw.field, fPN) {
 			if st, ok := fw.in.(*ssa.Store); ok {
 				if b, ok := st.Val.(*ssa.BinOp); ok && b.Op == token.ADD {
-					inc = st
+					// the increment of the peeling loop itself, not the one that counts the levels below a nil
+					underNil := hasGuard(st.Block(), func(g guard) bool {
+						c, ok := g.cond.(*ssa.Call)
+						return ok && g.pol && calleeFullName(c) == "(reflect.Value).IsNil"
+					})
+					if !underNil {
+						inc = st
+					}
 				}
 			}
 		}
